@@ -32,8 +32,13 @@ import (
 	"github.com/anyproto/any-sync/util/crypto"
 )
 
+// probeGuard: how long a benign probe operation may take before the object counts as wedged
+const probeGuard = 10 * time.Second
+
 // guarded runs one step of a sequence; returns panic value / hang flag.
-func guarded(f func() error) (err error, pan any, hung bool) {
+func guarded(f func() error) (err error, pan any, hung bool) { return guardedFor(guard, f) }
+
+func guardedFor(limit time.Duration, f func() error) (err error, pan any, hung bool) {
 	type res struct {
 		err error
 		pan any
@@ -52,9 +57,53 @@ func guarded(f func() error) (err error, pan any, hung bool) {
 	select {
 	case r := <-ch:
 		return r.err, r.pan, false
-	case <-time.After(guard):
+	case <-time.After(limit):
 		return nil, nil, true
 	}
+}
+
+// probes: "never panics, never hangs" is about the process AFTER the hostile input too. After every
+// step of a sequence — accepted or rejected — benign operations are run on the same object under the
+// hang detector: take its lock and iterate it, add a perfectly valid change, write locally.
+func (w *world) treeProbes(stream string, tr objecttree.ObjectTree, trace *[]string, validAdd func() error, local func() error) (stop bool) {
+	_, pan, hung := guardedFor(probeGuard, func() error {
+		tr.Lock()
+		defer tr.Unlock()
+		n := 0
+		_ = tr.Heads()
+		return tr.IterateRoot(func(ch *objecttree.Change, decrypted []byte) (any, error) { return nil, nil },
+			func(ch *objecttree.Change) bool { n++; return n < 10000 })
+	})
+	if pan != nil || hung {
+		*trace = append(*trace, "probe: lock + iterate")
+	}
+	if w.seqVerdict(stream+".probe-iterate", *trace, pan, hung) {
+		return true
+	}
+	if validAdd != nil {
+		err, pan, hung := guardedFor(probeGuard, validAdd)
+		if pan != nil || hung {
+			*trace = append(*trace, "probe: add a valid change")
+		}
+		if w.seqVerdict(stream+".probe-valid-add", *trace, pan, hung) {
+			return true
+		}
+		w.r.Count(stream + ".probe-valid-add." + cls(err))
+		if err != nil {
+			w.r.Count(stream + ".probe-valid-add.err:" + firstLine(err.Error()))
+		}
+	}
+	if local != nil {
+		err, pan, hung := guardedFor(probeGuard, local)
+		if pan != nil || hung {
+			*trace = append(*trace, "probe: local AddContent")
+		}
+		if w.seqVerdict(stream+".probe-local", *trace, pan, hung) {
+			return true
+		}
+		w.r.Count(stream + ".probe-local." + cls(err))
+	}
+	return false
 }
 
 // ---------------------------------------------------------------------------------------------
@@ -84,6 +133,7 @@ type treeFixture struct {
 	cc     *objecttree.MockChangeCreator
 	acl    list.AclList
 	treeNo int
+	rootId string // of the tree the current mock sequence runs on
 }
 
 func (w *world) newTreeFixture() *treeFixture {
@@ -183,12 +233,24 @@ func (w *world) genDag(rootId string, n int) []mockChange {
 	return out
 }
 
+// qual makes a mock id unique per tree (the change store is shared by all trees of the database)
+func (f *treeFixture) qual(id string) string {
+	if id == "" || id == f.rootId || strings.HasPrefix(id, f.rootId+".") {
+		return id
+	}
+	return f.rootId + "." + id
+}
+
 func (f *treeFixture) raw(aclHead string, c mockChange) *treechangeproto.RawTreeChangeWithId {
 	var data []byte
 	if c.data != "" {
 		data = []byte(c.data)
 	}
-	return f.cc.CreateRawWithData(c.id, aclHead, c.snapshot, c.isSnap, data, c.prev...)
+	prev := make([]string, len(c.prev))
+	for i, p := range c.prev {
+		prev[i] = f.qual(p)
+	}
+	return f.cc.CreateRawWithData(f.qual(c.id), aclHead, f.qual(c.snapshot), c.isSnap, data, prev...)
 }
 
 // treeSequence: one tree, several AddRawChanges calls in a hostile schedule.
@@ -197,6 +259,7 @@ func (w *world) treeSequence(f *treeFixture, scripted int, viaHandler bool) {
 	ctx := context.Background()
 	f.treeNo++
 	rootId := fmt.Sprintf("t%d", f.treeNo)
+	f.rootId = rootId
 	aclHead := f.acl.Head().Id
 	root := f.cc.CreateRoot(rootId, aclHead)
 	st, err := objecttree.VerifCreateStorage(ctx, root, f.db)
@@ -237,6 +300,10 @@ func (w *world) treeSequence(f *treeFixture, scripted int, viaHandler bool) {
 		z := mockChange{id: "c03", prev: []string{"c02"}, snapshot: rootId}
 		h := mockChange{id: "c04", prev: []string{rootId}, snapshot: rootId}
 		calls = [][]mockChange{{x}, {y}, {z}, {h}, {x, y, z}}
+	case 7, 8: // one honest change, then (below) a full-sync request whose snapshot path has nothing in common with ours
+		a := mockChange{id: "c01", prev: []string{rootId}, snapshot: rootId}
+		b := mockChange{id: "c02", prev: []string{"c01"}, snapshot: rootId}
+		calls = [][]mockChange{{a}, {b}}
 	case 6: // snapshot id that is not a snapshot / unknown, waiting child, then the parent
 		a := mockChange{id: "c01", prev: []string{rootId}, snapshot: rootId}
 		b := mockChange{id: "c02", prev: []string{"c01"}, snapshot: "c01"}
@@ -274,6 +341,7 @@ func (w *world) treeSequence(f *treeFixture, scripted int, viaHandler bool) {
 	}
 
 	var trace []string
+	probeNo := 0
 	if viaHandler {
 		trace = append(trace, "via HandleHeadUpdate")
 		w.r.Count("tree.seq.via-handler")
@@ -289,7 +357,7 @@ func (w *world) treeSequence(f *treeFixture, scripted int, viaHandler bool) {
 			names = append(names, c.String())
 			w.r.Count("tree.seq.member." + kindOr(c.kind))
 		}
-		heads := []string{batch[len(batch)-1].id}
+		heads := []string{f.qual(batch[len(batch)-1].id)}
 		if r.Chance(20) {
 			heads = append(heads, "unknown-head")
 		}
@@ -336,15 +404,31 @@ func (w *world) treeSequence(f *treeFixture, scripted int, viaHandler bool) {
 			return
 		}
 		w.r.Count("tree.seq.add." + cls(err))
-		// the tree must stay usable: iterate it
-		_, pan, hung = guarded(func() error {
-			tr.Lock()
-			defer tr.Unlock()
-			n := 0
-			return tr.IterateRoot(func(ch *objecttree.Change, decrypted []byte) (any, error) { return nil, nil },
-				func(ch *objecttree.Change) bool { n++; return n < 10000 })
-		})
-		if w.seqVerdict("tree.sequence.iterate", trace, pan, hung) {
+		// hostile full-sync requests in between (the peer asks instead of telling)
+		if scripted == 7 || scripted == 8 {
+			// rejected (or answered) request, then the probes below
+			if w.hostileRequestKind("tree.sequence", tr, rootId, root, &trace, scripted-7, 0) {
+				return
+			}
+		} else if r.Chance(35) {
+			if w.hostileRequest("tree.sequence", tr, rootId, root, &trace) {
+				return
+			}
+		}
+		// benign probes after every step
+		probeNo++
+		pid := fmt.Sprintf("p%02d", probeNo)
+		var validAdd func() error
+		if r.Chance(50) {
+			validAdd = func() error {
+				tr.Lock()
+				defer tr.Unlock()
+				c := mockChange{id: pid, prev: append([]string{}, tr.Heads()...), snapshot: tr.Root().Id}
+				_, err := tr.AddRawChanges(ctx, objecttree.RawChangesPayload{NewHeads: []string{f.qual(pid)}, RawChanges: []*treechangeproto.RawTreeChangeWithId{f.raw(aclHead, c)}})
+				return err
+			}
+		}
+		if w.treeProbes("tree.sequence", tr, &trace, validAdd, nil) {
 			return
 		}
 	}
@@ -359,6 +443,56 @@ func kindOr(k string) string {
 	return k
 }
 
+// hostileRequest: a full-sync REQUEST through the real sync handler (HandleStreamRequest): heads and
+// snapshot paths the responder knows nothing about, probe flag, damaged encodings. Rejection with an
+// error is fine; the probes that follow show whether the tree is still usable.
+func (w *world) hostileRequest(stream string, tr objecttree.ObjectTree, treeId string, root *treechangeproto.RawTreeChangeWithId, trace *[]string) (stop bool) {
+	return w.hostileRequestKind(stream, tr, treeId, root, trace, -1, -1)
+}
+
+// hostileRequestKind: headsKind / pathKind < 0 = random
+func (w *world) hostileRequestKind(stream string, tr objecttree.ObjectTree, treeId string, root *treechangeproto.RawTreeChangeWithId, trace *[]string, headsKind, pathKind int) (stop bool) {
+	r := w.r
+	var heads, path []string
+	if headsKind < 0 {
+		headsKind = r.Intn(5)
+	}
+	if pathKind < 0 {
+		pathKind = r.Intn(6)
+	}
+	switch headsKind {
+	case 0:
+		heads = append(heads, tr.Heads()...)
+	case 1:
+		heads = []string{"unknown-head"}
+	case 2:
+		heads = append(append(heads, tr.Heads()...), "unknown-head")
+	}
+	switch pathKind {
+	case 0:
+		path = []string{"nosuch"} // nothing in common with ours
+	case 1:
+		path = []string{"x", "y", "z"}
+	case 2:
+		path = []string{treeId}
+	case 3:
+		path = []string{"nosuch", treeId}
+	case 4:
+		path = []string{""}
+	}
+	req := &treechangeproto.TreeFullSyncRequest{Heads: heads, SnapshotPath: path, Probe: r.Chance(15) && headsKind+pathKind > 0}
+	b, _ := treechangeproto.WrapFullRequest(req, root).MarshalVT()
+	step := fmt.Sprintf("request heads=%s path=%s probe=%v", strings.Join(heads, ","), strings.Join(path, ","), req.Probe)
+	if r.Chance(10) && headsKind+pathKind > 0 {
+		b = w.mutateProto(b, 0)
+		step += " (message damaged)"
+	}
+	*trace = append(*trace, step)
+	err, pan, hung := guardedFor(probeGuard, func() error { return newHeadUpdater(tr, treeId, root).request(b) })
+	w.r.Count(stream + ".request." + cls(err))
+	return w.seqVerdict(stream+".request", *trace, pan, hung)
+}
+
 // seqVerdict records a panic / hang of a sequence step; true = stop the sequence.
 func (w *world) seqVerdict(stream string, trace []string, pan any, hung bool) bool {
 	switch {
@@ -367,7 +501,8 @@ func (w *world) seqVerdict(stream string, trace []string, pan any, hung bool) bo
 		w.r.Count(stream + ".panic")
 		return true
 	case hung:
-		w.r.Violate("C11", "", stream+".hang", fmt.Sprintf("no return within %s at step %d of a multi-message sequence", guard, len(trace)), append([]string{}, trace...))
+		w.hangs++
+		w.r.Violate("C11", "", stream+".hang", fmt.Sprintf("no return within the hang guard at step %d of a multi-message sequence (the object is wedged)", len(trace)), append([]string{}, trace...))
 		return true
 	}
 	return false
